@@ -123,7 +123,10 @@ def rule_flag_guards(ctx):
     ctx.check("nfailed = sum((1 for _ in workflow.steps(StepState.FAILED)))" in src, fi.fq, "failed count = attached FAILED steps", "failed count has another source", "workflow.steps(FAILED)")
     ws = ctx.prog.func("workflow.Workflow.steps")
     txt = " ".join(s.text for s in ctx.sql.stmts_in(ws.fq))
-    ctx.check("state = ? AND NOT detached" in txt, ws.fq, "only attached steps count", "detached FAILED memories make the build fail", "NOT detached")
+    src_ws = _norm(ast.unparse(ws.node))
+    ctx.check("if not include_detached: sql += ' AND NOT detached'" in src_ws and "include_detached: bool=False" in src_ws.replace(" = ", "="), ws.fq, "only attached steps count (the default of Workflow.steps)", "detached FAILED memories make the build fail", "NOT detached by default")
+    rcall = [c for c in calls_in(fi.node) if callee_name(c) == "steps"]
+    ctx.check(bool(rcall) and all(not c.keywords for c in rcall), fi.fq, "the failed count uses the attached-only default", "the report counts detached FAILED steps", "no include_detached")
     ps = ctx.prog.func("finalize._report_pending_steps")
     for tr, st in flow.paths_of(ps):
         r = [e for e in tr if e[0] == "return"]
